@@ -50,6 +50,12 @@ type TypeReg struct {
 	pkgPath    string
 	modPath    string
 	modelled   map[string]bool
+	frozen     bool
+}
+
+func (r *TypeReg) freeze() {
+	sort.Strings(r.compOrd)
+	r.frozen = true
 }
 
 func newTypeReg(pkgPath string) *TypeReg {
@@ -70,6 +76,9 @@ func newTypeReg(pkgPath string) *TypeReg {
 func (r *TypeReg) addComp(name, srt string, ghost bool) {
 	if _, ok := r.comps[name]; ok {
 		return
+	}
+	if r.frozen {
+		panic("heap component " + name + " discovered after the component set was frozen (prescan gap)")
 	}
 	r.comps[name] = &Comp{Name: name, Sort: srt, Ghost: ghost}
 	r.compOrd = append(r.compOrd, name)
@@ -390,9 +399,7 @@ func (r *TypeReg) declStructs() string {
 // declHeap emits the Heap datatype and accessor functions.
 func (r *TypeReg) declHeap() string {
 	var b strings.Builder
-	names := append([]string{}, r.compOrd...)
-	sort.Strings(names)
-	r.compOrd = names
+	names := r.compOrd
 	b.WriteString("(declare-datatypes ((Heap 0)) (((mkHeap")
 	for _, n := range names {
 		fmt.Fprintf(&b, " (h.%s %s)", n, r.comps[n].Sort)
